@@ -25,9 +25,10 @@ theorem minR_pos {x y : Rat} (hx : 0 < x) (hy : 0 < y) : 0 < minR x y := by
 
 theorem numDist_range (a b mx : Rat) (hmx : 0 < mx) : 0 ≤ numDist a b mx ∧ numDist a b mx ≤ mx := by
   unfold numDist
+  have hne : mx ≠ 0 := ne_of_gt hmx
   split
   · exact ⟨le_refl _, le_of_lt hmx⟩
-  · simp only
+  · simp only [hne, if_false]
     split
     · exact ⟨le_of_lt hmx, le_refl _⟩
     · refine ⟨?_, minR_le_left _ _⟩
@@ -40,7 +41,8 @@ theorem numDist_zero_iff (a b mx : Rat) (hmx : 0 < mx) : numDist a b mx = 0 ↔ 
   · intro h
     by_contra hab
     unfold numDist at h
-    simp only [hab, ↓reduceIte] at h
+    have hne : mx ≠ 0 := ne_of_gt hmx
+    simp only [hab, hne, ↓reduceIte] at h
     split at h
     · linarith
     · rename_i hdiv
